@@ -103,6 +103,13 @@ package backend
 //@   requires wf_backend(b) && pending == 0 && !batch_open
 //@   modifies ghost.pending ghost.max_issued ghost.bw_n ghost.bw_kind ghost.bw_key ghost.bw_val ghost.bw_old ghost.bw_ttl ghost.commits ghost.last_batch ghost.last_err ghost.batch_open ghost.floor ghost.floor_set
 //@   ensures [dealt-is-returned] pending == newRevision
+//@   ensures [at-most-one-batch] commits == old(commits) || (commits == old(commits)+1 && last_err == err && bw_n[last_batch] == 2)
+//@   ensures [no-batch-means-error] commits == old(commits) ==> err != nil
+//@   ensures [stale-expectation-writes-nothing] oldRevision > 0 && old.Revision != 0 && oldRevision != old.Revision ==> commits == old(commits)
+//@   ensures [index-cas-on-the-version-read] commits == old(commits)+1 ==> bw_kind[last_batch][0] == 2 && is_enc(bw_key[last_batch][0], key, uint64(0)) && len(bw_old[last_batch][0]) == 8 && be64_of(bw_old[last_batch][0]) == old.Revision && (oldRevision == 0 || oldRevision == old.Revision)
+//@   ensures [index-gets-deletion-flag] commits == old(commits)+1 ==> len(bw_val[last_batch][0]) == 9 && be64_of(bw_val[last_batch][0]) == newRevision && bw_val[last_batch][0][8] == 0
+//@   ensures [tombstone-version] commits == old(commits)+1 ==> bw_kind[last_batch][1] == 3 && is_enc(bw_key[last_batch][1], key, newRevision) && bw_val[last_batch][1] == tombStoneBytes
+//@   ensures [strictly-newer] commits == old(commits)+1 ==> newRevision > old.Revision && newRevision > old(max_issued)
 //@   ensures [range] newRevision == 0 || newRevision < 0x8000000000000000
 //@   ensures [closed] !batch_open
 
